@@ -2,7 +2,7 @@
    checks/c11.py; the guards term_lit_ok and cond_depth are defined beside their lemmas in proofs/TraceqlEvalProofs.v).  Executable definitions only. *)
 From Coq Require Import List ZArith QArith String Ascii Bool.
 From Qryn Require Import model.TqSql model.Traceql model.TraceqlPlan model.TraceqlSem model.TraceqlCase proofs.TraceqlEvalProofs
-     proofs.TraceqlChainProofs proofs.TraceqlChainPlan.
+     proofs.TraceqlIndexSearchProofs proofs.TraceqlChainProofs proofs.TraceqlChainPlan.
 Import ListNotations.
 (* is the case inside the hypotheses of traceql_correct_single (1) / traceql_correct_agg (2)?  0 = outside *)
 Definition theorem_scope (cs : case) : Z :=
@@ -32,3 +32,11 @@ Definition chain_scope (cs : case) : bool :=
   | _, _ => false
   end.
 Definition chain_count (l : list case) : Z := Z.of_nat (List.length (filter chain_scope l)).
+
+(* is a call of the case inside the hypotheses of traceql_correct_single_portion / traceql_correct_agg_portion (one selector, rf_max > 0) *)
+Definition portion_scope (cs : case) : bool :=
+  match c_mode cs, c_q cs with
+  | MSearch, Script h _ None => sel_ok_b h && rf_ok (c_ctx cs)
+  | _, _ => false
+  end.
+Definition portion_count (l : list case) : Z := Z.of_nat (List.length (filter portion_scope l)).
